@@ -8,8 +8,11 @@ import (
 	"fmt"
 	"os"
 	"path/filepath"
+	"runtime"
 	"sort"
 	"strings"
+	"sync/atomic"
+	"time"
 
 	"github.com/B1NARY-GR0UP/originium"
 
@@ -65,6 +68,7 @@ type interp struct {
 	existedBefore map[int]bool // key had a version before the last reopen
 	commitsAtOpen int
 	closed        bool
+	beat          atomic.Int64
 }
 
 var errClosure = errors.New("closure gave up")
@@ -105,19 +109,53 @@ func Run(p Program, scratch string) (out *Outcome) {
 			in.g.detach()
 		}
 	}()
+	stopWD := startWatchdog(in)
+	defer stopWD()
 	if !in.openDB() {
 		return
 	}
 	for i, o := range p.Ops {
 		in.step = i
+		in.beat.Store(time.Now().UnixNano())
 		in.exec(o)
 		if len(out.Discs) > 40 {
 			break
 		}
 	}
 	in.step = len(p.Ops)
+	in.beat.Store(time.Now().UnixNano())
 	in.finish()
 	return
+}
+
+// HangHook is called (from the watchdog goroutine) when one program step did
+// not return for hangLimit; the foreground goroutine is stuck inside the
+// engine, so the process cannot continue with further cases.
+var HangHook func(step int, op string, dump string)
+
+const hangLimit = 25 * time.Second
+
+func startWatchdog(in *interp) func() {
+	in.beat.Store(time.Now().UnixNano())
+	stop := make(chan struct{})
+	go func() {
+		t := time.NewTicker(time.Second)
+		defer t.Stop()
+		for {
+			select {
+			case <-stop:
+				return
+			case <-t.C:
+				if time.Since(time.Unix(0, in.beat.Load())) > hangLimit && HangHook != nil {
+					buf := make([]byte, 1<<20)
+					buf = buf[:runtime.Stack(buf, true)]
+					HangHook(in.step, in.opName(), string(buf))
+					return
+				}
+			}
+		}
+	}()
+	return func() { close(stop) }
 }
 
 func (in *interp) opName() string {
@@ -290,6 +328,9 @@ func (in *interp) checkRead(lt *liveTxn, k int, got []byte, ok bool) {
 			case "abandoned":
 				kind = "abandoned_visible"
 				msg += fmt.Sprintf(" - the value was written by transaction %d, which was never committed", no)
+			case "refused":
+				kind = "refused_visible"
+				msg += fmt.Sprintf(" - the value was written by transaction %d, whose Commit was refused with a conflict", no)
 			case "open":
 				if no != lt.m.no {
 					kind = "dirty_read"
@@ -413,7 +454,7 @@ func (in *interp) doCommit(lt *liveTxn) error {
 		}
 	case errors.Is(err, originium.ErrConflictTxn):
 		lt.h.Outcome = "conflict"
-		in.status[lt.m.no] = "abandoned"
+		in.status[lt.m.no] = "refused"
 		lt.m.abandoned = true
 		in.out.class("conflict_refused")
 		in.out.Counts["conflicts"]++
@@ -548,6 +589,13 @@ func (in *interp) exec(o Op) {
 		}
 	case "update":
 		in.doUpdate(o)
+	case "burst":
+		for i := 0; i < o.N; i++ {
+			in.doUpdate(Op{Op: "update", Ups: []UpOp{{Op: "set", K: (o.K + i) % len(in.p.Keys), VLen: 0}}})
+		}
+		if len(in.open) > 0 {
+			in.out.class("burst_of_commits_with_open_txn")
+		}
 	case "view":
 		ks := make([]int, 0, len(o.Ups))
 		for _, u := range o.Ups {
@@ -700,7 +748,7 @@ func (in *interp) doUpdate(o Op) {
 		}
 	case errors.Is(err, originium.ErrConflictTxn):
 		h.Outcome = "conflict"
-		in.status[no] = "abandoned"
+		in.status[no] = "refused"
 		if !predictedConflict {
 			in.disc("commit_result", fmt.Sprintf("Update txn %d was refused with ErrConflictTxn; no other transaction can have committed during the closure", no))
 		}
